@@ -149,7 +149,34 @@ class DeMorgan(ast.NodeTransformer):
         return node
 
 
+def from_imports(src):
+    """`import struct` + struct.pack(..) -> `from struct import pack` + pack(..)  (for struct, binascii, copy, time when imported plainly and
+    the bare names are free)"""
+    tree = ast.parse(src)
+    plain = {a.asname or a.name for st in tree.body if isinstance(st, ast.Import) for a in st.names}
+    used = {}
+    names = {n.id for n in ast.walk(tree) if isinstance(n, ast.Name)} | {n.name for n in ast.walk(tree) if isinstance(n, (ast.FunctionDef, ast.ClassDef))} | \
+        {a.arg for n in ast.walk(tree) if isinstance(n, ast.arguments) for a in n.args + n.kwonlyargs} | {n.attr for n in ast.walk(tree) if isinstance(n, ast.Attribute) and False}
+    for n in ast.walk(tree):
+        if isinstance(n, ast.Attribute) and isinstance(n.value, ast.Name) and n.value.id in ('struct', 'binascii', 'copy') and n.value.id in plain and n.attr not in names:
+            used.setdefault(n.value.id, set()).add(n.attr)
+
+    class T(ast.NodeTransformer):
+        def visit_Attribute(self, n):
+            self.generic_visit(n)
+            if isinstance(n.value, ast.Name) and n.value.id in used and n.attr in used[n.value.id] and isinstance(n.ctx, ast.Load):
+                return ast.copy_location(ast.Name(id=n.attr, ctx=ast.Load()), n)
+            return n
+    tree = T().visit(tree)
+    new_imports = [ast.ImportFrom(module=m, names=[ast.alias(name=a) for a in sorted(v)], level=0) for m, v in sorted(used.items())]
+    idx = next((i for i, st in enumerate(tree.body) if isinstance(st, (ast.Import, ast.ImportFrom))), 0)
+    tree.body[idx:idx] = new_imports
+    return ast.unparse(ast.fix_missing_locations(tree)) + '\n'
+
+
 def transform(src, kind):
+    if kind == 'fromimport':
+        return from_imports(src)
     if kind == 'roundtrip':
         return roundtrip(src)
     tree = ast.parse(src)
